@@ -3,4 +3,4 @@ From TxVerif Require Import Lib.Bytes Lib.Verdict Spec.Ctl Spec.C13.
 Import ListNotations.
 Record case := { r_req : request; r_obs : obs13 }.
 Definition check (k : case) : verdict :=
-  if negb (wf_request (r_req k)) then VSkip else mk_verdict None (oracle (r_req k) (r_obs k)).
+  if negb (wf_request_wide (r_req k)) then VSkip else mk_verdict None (oracle (r_req k) (r_obs k)).
